@@ -1,11 +1,12 @@
 (* Props/C08.v -- entropy equals the von Neumann entropy of the reduced density matrix.  Property theorems only.
-   PARTIAL: the reduced density matrix of a stabilizer state on region A is the stabilizer state of the subgroup supported inside A, whose entropy is
-   |A| - dim(subgroup) = |A| - L + rank(generators restricted to the complement) =: entropy_ref.  That spectral fact is cited, not formalised (and tested against
-   dense eigenvalues for N<=4 by the correspondence check).  Proved here: the code computes entropy_ref for EVERY N in both branches (mixed branch: by definition; pure
+   The reduced density matrix of a stabilizer state on region A is the stabilizer state of the subgroup supported inside A, of log2-rank
+   |A| - dim(subgroup) = |A| - L + rank(generators restricted to the complement) =: entropy_ref -- PROVED as a statement about partial traces in the ket semantics
+   (Proofs/ReducedStateFacts.v, theorems at the end of this file); left outside Coq is only that a state with flat spectrum on 2^r dimensions has von Neumann entropy r
+   (dense eigenvalues are compared for N<=4 by the correspondence check).  Also proved: the code computes entropy_ref for EVERY N in both branches (mixed branch: by definition; pure
    branch: Proofs/PureEntropyFacts.v via rank-nullity, symplectic complements and maximal isotropy; also by complete enumeration for N<=3), z2rank as implemented is the
    dimension of the row space, and the claimed invariances. *)
 From PC Require Import Proofs.Z2Facts.
-From PC Require Import Model.Base Model.Pauli Model.Z2 Model.Tableau Model.Entropy Proofs.RankFacts Proofs.EntropyFinite Proofs.LinAlgFacts Proofs.PureEntropyFacts.
+From PC Require Import Model.Base Model.Pauli Model.Z2 Model.Tableau Model.Entropy Proofs.RankFacts Proofs.EntropyFinite Proofs.LinAlgFacts Proofs.PureEntropyFacts Model.Spec Model.Ket Model.Poly Model.PolySem Model.Sample Proofs.MeasureFacts Proofs.TraceFacts Proofs.ReducedStateFacts.
 
 (* the mixed-state branch of the kernel is the reference formula, for every N *)
 Theorem C08_mixed_branch_is_reference : forall n gs m, length gs <> n -> entropy_of n gs m = entropy_ref gs m.
@@ -67,3 +68,23 @@ Print Assumptions C08_rank_nullity.
 Theorem C08_row_rank_is_column_rank : forall c M, rect c M -> z2rank (transpose c M) = z2rank M.
 Proof. exact z2rank_transpose. Qed.
 Print Assumptions C08_row_rank_is_column_rank.
+(* THE VALUE RETURNED IS THE ENTROPY OF THE REDUCED DENSITY MATRIX.  The partial trace of rho over the complement of the region (sum over the complement's kets of the
+   matrix elements, in the ket semantics) is the density matrix of a valid stabilizer tableau tA on |A| qubits whose log2-rank is exactly entropy(A); by C05 that matrix is
+   2^-r times a projector of rank 2^r (trace 1, rho rho = 2^-r rho, positive), so its spectrum is flat on a 2^r-dimensional subspace and its von Neumann entropy is r.
+   (Only "a flat spectrum on 2^r dimensions has entropy r bits" -- the definition of -Tr rho log2 rho on such a state -- is left outside Coq.) *)
+Theorem C08_reduced_state_is_stabilizer_state_of_rank_entropy : forall n t m, tableau_ok n t -> length m = n ->
+  exists tA, tableau_ok (count_true m) tA /\ Z.of_nat (rk tA) = entropy t m /\
+    forall ka ka', length ka = count_true m -> length ka' = count_true m ->
+      ptrace_amp m (density_poly t) ka ka' = amp (density_poly tA) ka ka'.
+Proof. exact reduced_state_entropy. Qed.
+Print Assumptions C08_reduced_state_is_stabilizer_state_of_rank_entropy.
+Theorem C08_reduced_group : forall n t m, tableau_ok n t -> length m = n ->
+  exists tA, tableau_ok (count_true m) tA /\
+    Z.of_nat (rk tA) = entropy_ref (map fst (stabilizers t)) m /\
+    (forall a, in_group (count_true m) tA a <-> exists b, in_group n t b /\ supported_in m (fst b) = true /\ a = restrict_pauli m b) /\
+    forall ka ka', length ka = count_true m -> length ka' = count_true m -> ptrace_amp m (density_poly t) ka ka' = amp (density_poly tA) ka ka'.
+Proof. exact reduced_state_is_stabilizer_state. Qed.
+Print Assumptions C08_reduced_group.
+Theorem C08_kernel_value_is_reference_for_every_state : forall n t m, tableau_ok n t -> length m = n -> entropy t m = entropy_ref (map fst (stabilizers t)) m.
+Proof. exact entropy_is_ref. Qed.
+Print Assumptions C08_kernel_value_is_reference_for_every_state.
